@@ -152,12 +152,12 @@ pub fn random_batch() -> BoxedStrategy<LpBatch> {
 }
 
 pub fn run(run: &mut Run) {
-    run.rule = "every rendered file spells `name=value` in one of three ways (`=`, ` = `, ` =`), drawn from its first block. layouts: own-line tag comments in LF and CRLF shell files, and shell files whose end-tag comment trails the last content line. enumerated: every line sequence of length 0..k (k=4 quick, 5 thorough) over a 13-line alphabet (matching, non-matching, indented, blank, partially matching lines) x 17 anchored/unanchored patterns with hand-written predicates (three of them with inline flags / a Unicode class: `(?i)^abc$`, `^\\p{Lu}`, `(?x) ^ x \\d $`) (7 of them can match the empty string - two of those anchored at both ends, so that they still reject lines -, one is a bare zero-width assertion), plus 3 special patterns (a significant blank at an edge; `^a.b$`) over an 11-line alphabet of lines differing in exactly that blank, or holding a bare carriage return in the middle; random: blocks of 5..150 lines incl. Unicode, a third of them holding a nested block that carries the same pattern (its tag comments are lines of the outer block, its lines are judged twice; expected: one diagnostic per block, possibly at the same line). Non-trivial block = at least 2 non-blank lines and (matching and failing lines mixed, a blank line, or a padded line); distinct by (batch, block).".into();
+    run.rule = "every rendered file spells `name=value` in one of three ways (`=`, ` = `, ` =`), drawn from its first block. layouts: own-line tag comments in LF and CRLF shell files, and shell files whose end-tag comment trails the last content line. enumerated: every line sequence of length 0..k (k=4 quick, 5 thorough) over a 13-line alphabet (matching, non-matching, indented, blank, partially matching lines) x 19 anchored/unanchored patterns with hand-written predicates (two whose only regex construct is a counted repetition: `x{1}y`, `a{2}`) (three of them with inline flags / a Unicode class: `(?i)^abc$`, `^\\p{Lu}`, `(?x) ^ x \\d $`) (7 of them can match the empty string - two of those anchored at both ends, so that they still reject lines -, one is a bare zero-width assertion), plus 3 special patterns (a significant blank at an edge; `^a.b$`) over an 11-line alphabet of lines differing in exactly that blank, or holding a bare carriage return in the middle; random: blocks of 5..150 lines incl. Unicode, a third of them holding a nested block that carries the same pattern (its tag comments are lines of the outer block, its lines are judged twice; expected: one diagnostic per block, possibly at the same line). Non-trivial block = at least 2 non-blank lines and (matching and failing lines mixed, a blank line, or a padded line); distinct by (batch, block).".into();
     run.assumptions = vec![
         "content lines are shell/ruby words (block discovery itself is C03)".into(),
         "patterns come from a fixed family with hand-written predicates".into(),
     ];
     let k = run.tier.pick(4, 5);
-    run.enumerate("enum", enumerated(k, 400), Some(&format!("all line sequences of length <= {k} over the stated alphabet x 17 patterns")), check_batch);
+    run.enumerate("enum", enumerated(k, 400), Some(&format!("all line sequences of length <= {k} over the stated alphabet x 19 patterns")), check_batch);
     run.random("long", run.tier.pick(400, 8000), random_batch, check_batch);
 }
